@@ -103,6 +103,72 @@ def _known_for(known, name, detail):
     return None
 
 
+# Message-level structures for which "the decoder accepts every message a peer can legally send" is
+# pinned: the shapes the decoder of the pinned tree accepts (baseline/accepted_shapes.json, written
+# by --update-baseline) must still be accepted.  A shape that is now refused is instantiated with
+# sample values and handed to the real decoder (replay): the violation is confirmed on real bytes.
+PINNED_ACCEPTANCE_CLASSES = ("kmip.core.messages.messages.ResponseBatchItem", "kmip.core.messages.messages.RequestBatchItem",
+                             "kmip.core.messages.messages.ResponseHeader", "kmip.core.messages.messages.RequestHeader",
+                             "kmip.core.messages.messages.ResponseMessage", "kmip.core.messages.messages.RequestMessage")
+_ACCEPT_FILE = os.path.join(os.path.dirname(os.path.dirname(os.path.abspath(__file__))), "baseline", "accepted_shapes.json")
+
+
+def _sig(shape):
+    return "|".join(shape) if isinstance(shape, (list, tuple)) else str(shape)
+
+
+def _legal_under(tree, vn):
+    """no tag of the shape was introduced by a later KMIP version than vn (shapes that carry one are
+    findings of C16, not messages a peer may legally send: they are not pinned)"""
+    from kmip.core import enums
+    from contracts import spec_versions as SV
+    vt = tuple(int(x) for x in vn.replace("KMIP_", "").split("_"))
+    for t in _tags_of(tree):
+        for part in t.split(">"):
+            try:
+                if SV.introduced(getattr(enums.Tags, part).value) > vt:
+                    return False
+            except Exception:
+                pass
+    return True
+
+
+def _check_pinned_acceptance(sess, cname, vn, acc, known):
+    from . import pyvc
+    acc = [a for a in acc if _legal_under(a.tree, vn) and not a.failures]
+    now = {_sig(a.shape): a for a in acc}
+    sess.extra_accepted = getattr(sess, 'extra_accepted', {})
+    sess.extra_accepted.setdefault(cname, {})[vn] = [{"shape": a.shape, "tree": a.tree} for a in acc]
+    try:
+        pinned = json.load(open(_ACCEPT_FILE)).get(cname, {}).get(vn)
+    except Exception:
+        pinned = None
+    name = "ttlv:%s/%s/still-accepts-the-pinned-shapes" % (cname, vn)
+    if pinned is None:
+        return
+    lost = [p for p in pinned if _sig(p["shape"]) not in now and _legal_under(p["tree"], vn)]
+    if not lost:
+        sess.record(pyvc.ObligationResult(name, "ttlv", "proved", "%d pinned shapes" % len(pinned), None, None, "ttlvsym"))
+        return
+    p = lost[0]
+    d = "%d shape(s) the pinned decoder accepts are refused now, e.g. %s" % (len(lost), _sig(p["shape"])[:300])
+    model = {"class": cname, "version": vn, "obligation": "native.accepts", "shape": p["shape"], "tree": p["tree"],
+             "detail": d}
+    sess.record(pyvc.ObligationResult(name, "ttlv", "failed", d[:400], model, None, "ttlvsym"))
+
+
+def write_pinned_acceptance(collected):
+    """called by the driver on --update-baseline with {class: {version: [shape, tree]}}"""
+    try:
+        cur = json.load(open(_ACCEPT_FILE))
+    except Exception:
+        cur = {}
+    for c, byv in collected.items():
+        cur.setdefault(c, {}).update(byv)
+    with open(_ACCEPT_FILE, "w") as f:
+        json.dump(cur, f)
+
+
 def _explore_class(sess, cname, summ, tier, known, prop):
     from kmip.core import enums
     from . import ttlvexplore as X, pyvc
@@ -183,11 +249,15 @@ def _explore_class(sess, cname, summ, tier, known, prop):
                 sess.record(res)
             if not exhaustive:
                 bounded_names.append(name)
+        if prop == "C01" and cname in PINNED_ACCEPTANCE_CLASSES and quick:
+            _check_pinned_acceptance(sess, cname, vn, acc, known)
         if acc and len(samples) < 2:
             samples.append({"class": cname, "version": vn, "shape": acc[0].shape[:3]})
         natives.append((vn, acc))
     sess.extra = {"version_matrix": {cname: matrix}, "bounded_obligations": bounded_names,
                   "ttlv_samples": samples, "ttlv_shapes": shapes_total}
+    if getattr(sess, 'extra_accepted', None):
+        sess.extra["accepted_shapes_pinned"] = sess.extra_accepted
     sess.functions["ttlv:" + cname] = _sha_of_class(cls)
     sess.paths += sum(m["paths"] for m in matrix.values())
     # ---- byte-level cross-check on the real, unpatched code
